@@ -170,6 +170,11 @@ def _W2(parts):
     return [(t, "w1 <= 2 and " + c) for t, c in parts]
 
 
+def _BYW(parts):
+    """thorough partitions, one per parent width (a partition must stay below ~600 paths)"""
+    return [(f"{t}_w{w}", f"w1 == {w} and " + c) for t, c in parts for w in (1, 2, 3)]
+
+
 def _parts(sels, steps1):
     return parts_product([(f"s{s}", f"sel == {s}") for s in sels], [(f"c{c}".replace("-", "m"), f"c1 == {c}") for c in steps1])
 
@@ -200,8 +205,8 @@ def _parts(sels, steps1):
                             ("s6p2", "sel == 6 and w1 == 3 and c1 == 2 and a1 == 99 and b1 == 99 and -2 <= i <= 1"),
                             ("s10", "sel == 10 and w1 == 3 and (c1 == -1 or c1 == 2) and a1 == 99 and b1 == 99 and -1 <= i <= 0"),
                             ("s3m2", "sel == 3 and w1 == 3 and i == 0 and c1 == -2 and a1 == 99 and b1 == 99 and c2 == 1 and a2 == 1 and b2 == 99")]},
-             "thorough": {"timeout": 700, "pre": ["a2 == 0 and b2 == 0 and c2 == 1 or sel == 1 or sel == 3", "i == 0 or sel >= 4"],
-                          "parts":
+             "thorough": {"timeout": 600, "pre": ["a2 == 0 and b2 == 0 and c2 == 1 or sel == 1 or sel == 3", "i == 0 or sel >= 4"],
+                          "parts": _BYW(
                               # single-stage families: every bound in [-4,4] or None (beyond +-3 is out of range for W=3), all 6 steps
                               parts_product([(f"s{s}", f"sel == {s} and (-4 <= a1 <= 4 or a1 == 99) and (-4 <= b1 <= 4 or b1 == 99)") for s in (0, 2, 9)],
                                             [(f"c{c}".replace("-", "m"), f"c1 == {c}") for c in (1, -1, 2, -2, 3, -3)]) +
@@ -212,7 +217,7 @@ def _parts(sels, steps1):
                               parts_product([(f"s{s}", f"sel == {s} and (a1 == 99 or -1 <= a1 <= 0) and (b1 == 99 or -1 <= b1 <= 0) and (-2 <= a2 <= 2 or a2 == 99) and (-2 <= b2 <= 2 or b2 == 99)") for s in (1, 3)],
                                             [(f"c{c}".replace("-", "m"), f"c1 == {c}") for c in (1, -1, 2, -2)],
                                             [(f"d{c}".replace("-", "m"), f"c2 == {c}") for c in (1, -1, 2)]) +
-                              [("s4", "sel == 4 and c1 == 1 and a1 == 0 and b1 == 0")]},
+                              [("s4", "sel == 4 and c1 == 1 and a1 == 0 and b1 == 0")])},
          },
          sample=(1, 3, 1, NONE, NONE, -1, 0, 2, 1, 0),
          bounds=f"W={W}: parent widths 1..{W} (second bus 1..2), bounds in [-{2*W},{2*W}] or None, steps +-1..+-{W}, index in [-{2*W},{2*W}]; 11 expression families, depth <= 2 (quick tier: narrower, see pre)",
